@@ -347,6 +347,68 @@ pub fn verify(call: &VerifyCall) -> CallResult {
     }
 }
 
+/// The same call made by `n` caller threads at once (released together by a barrier), each with its own
+/// parsed layout object and key map: whatever the library shares between callers (statics, caches,
+/// counters) is then used from several threads. Only for worlds without inspections (the working
+/// directory is process-wide). What is kept of each verdict is its class and, on Ok, the summary: which
+/// of several errors a failing call reports may depend on the order its maps iterate in.
+pub fn verify_concurrently(call: &VerifyCall, n: usize) -> Vec<Verdict> {
+    let text = match std::str::from_utf8(call.layout_bytes) {
+        Ok(t) => t.to_string(),
+        Err(_) => return vec![],
+    };
+    std::env::set_current_dir(call.cwd).expect("chdir work");
+    seams::clock_arm(call.clock);
+    seams::hash_seed(call.hash_seed);
+    let barrier = std::sync::Arc::new(std::sync::Barrier::new(n));
+    let link_dir = call.link_dir.to_string_lossy().to_string();
+    let results: Vec<Result<Result<Value, String>, String>> = silenced(|| {
+        let handles: Vec<_> = (0..n)
+            .map(|_| {
+                let (text, keys, link_dir, step_name, barrier) = (text.clone(), call.caller_keys.clone(), link_dir.clone(), call.step_name.clone(), barrier.clone());
+                std::thread::Builder::new()
+                    .stack_size(8 << 20)
+                    .spawn(move || -> Result<Value, String> {
+                        let mb: Metablock = serde_json::from_str(&text).map_err(|e| format!("parse: {e}"))?;
+                        let mut map: HashMap<KeyId, PublicKey> = HashMap::new();
+                        for (id, k) in keys {
+                            if let Ok(kid) = id.parse::<KeyId>() {
+                                map.insert(kid, k);
+                            }
+                        }
+                        barrier.wait();
+                        match in_toto::verifylib::in_toto_verify(&mb, map, &link_dir, step_name.as_deref()) {
+                            Ok(summary) => Ok(match &summary.metadata {
+                                MetadataWrapper::Link(l) => serde_json::to_value(l).unwrap_or(Value::Null),
+                                MetadataWrapper::Layout(_) => Value::String("layout-as-summary".into()),
+                            }),
+                            Err(e) => Err(err_class(&e)),
+                        }
+                    })
+                    .expect("spawn")
+            })
+            .collect();
+        handles
+            .into_iter()
+            .map(|h| {
+                h.join().map_err(|p| {
+                    let loc = crate::LAST_PANIC.lock().map(|g| g.clone()).unwrap_or_default();
+                    if loc.is_empty() { panic_text(p) } else { loc }
+                })
+            })
+            .collect()
+    });
+    let reads = seams::clock_disarm();
+    results
+        .into_iter()
+        .map(|r| match r {
+            Err(p) => Verdict { ok: false, class: String::new(), msg: String::new(), panic: Some(p), summary: None, clock_reads: 0, hash_draws: 0 },
+            Ok(Ok(v)) => Verdict { ok: true, class: String::new(), msg: String::new(), panic: None, summary: Some(v), clock_reads: if reads >= n { 1 } else { 0 }, hash_draws: 0 },
+            Ok(Err(_)) => Verdict { ok: false, class: String::new(), msg: String::new(), panic: None, summary: None, clock_reads: 0, hash_draws: 0 },
+        })
+        .collect()
+}
+
 /// scratch paths contain the worker's pid; keep it out of the event-log digest
 pub fn mask_scratch(s: &str) -> String {
     let mut out = String::new();
